@@ -414,7 +414,9 @@ func init() {
 		NumCases: func(ctx *Ctx) int { c13Bases(ctx); return c13cum[len(c13cum)-1] + c13Edits(ctx) },
 		Gen:      genC13, Exec: execC13,
 		FaultKeys: []string{"fault_truncate", "fault_flip", "fault_insert", "fault_insert-rune", "fault_insert-rune-at-mark", "fault_delete", "fault_dupsector", "fault_dropsector", "fault_swapsector", "fault_flip+truncate"},
-		Probes:    []string{"outcome_ok", "outcome_error", "outcome_panic"},
+		Probes:    []string{"outcome_ok", "outcome_error", "outcome_panic", "generations_with_-g(child process)"},
+		Real:      []string{"yaccgo generator (instrumented copy): lexer task, parser task, channel, table construction, code generation, -g drawing incl. process start and pipe", "the uninstrumented CLI (confirmation of every hang)"},
+		Stubs:     []string{"`dot` (graphviz, absent in the sandbox): a stand-in on the PATH that reads its input to the end"},
 		Assume:    []string{"every loop of yaccgo carries a tick (the instrumenter adds one to every for/range body, function entry and goto label)", "a run that needs more than 200x the ticks of its well-formed base is not going to finish"},
 	})
 }
